@@ -607,12 +607,14 @@ func c01Configs(env *mc.Env) []*c01Cfg {
 		"P": {{"P", root, true, false, c01Vec{8, 8}, c01Vec{4, 4}}, {"P", root, true, true, c01Vec{6, 6}, c01Vec{2, 2}}, {"P", "C", true, false, c01Vec{8, 8}, c01Vec{4, 4}}},
 		"C": {{"C", root, true, true, c01Vec{8, 8}, c01Vec{0, 0}}},
 		"A": {{"A", "P", false, false, c01Vec{4, 4}, c01Vec{2, 2}}, {"A", "P", false, true, c01Vec{2, 2}, c01Vec{0, 0}},
-			{"A", "C", false, false, c01Vec{4, 4}, c01Vec{2, 2}}, {"A", root, false, true, c01Vec{4, 4}, c01Vec{0, 0}}},
+			{"A", "C", false, false, c01Vec{4, 4}, c01Vec{2, 2}}, {"A", root, false, true, c01Vec{4, 4}, c01Vec{0, 0}},
+			// differs from v0 in min ONLY: the in-place min update (no tree rebuild), also while the pods ask for more than max (seed C01-7)
+			{"A", "P", false, false, c01Vec{4, 4}, c01Vec{1, 1}}},
 		"B": {{"B", "P", false, true, c01Vec{4, 4}, c01Vec{1, 1}}, {"B", "P", false, false, c01Vec{3, 3}, c01Vec{1, 1}}},
 	}
 	small := map[string][]c01QSpec{
 		"P": {tree["P"][0]},
-		"A": {tree["A"][0], tree["A"][1], tree["A"][3]},
+		"A": {tree["A"][0], tree["A"][1], tree["A"][3], tree["A"][4]},
 	}
 	cfgs := []*c01Cfg{
 		{name: "tree-2pods", pods: 2, groups: []string{"A", "B"}, variants: tree, qnames: []string{"P", "C", "A", "B"}},
